@@ -310,8 +310,10 @@ fn gen_bulk() -> GenCfg {
         threads: vec![1, 4, 16],
         op_weights: [70, 28, 2, 0, 0],
         avail_mem: medium_mem(),
-        n_trees: vec![(1, vec![None]), (3, vec![Some(1), Some(2), Some(3)])],
-        split_after: vec![(3, vec![None]), (2, vec![Some(2), Some(10), Some(50)]), (1, vec![Some(5000), Some(10_000)])],
+        // a few forests of 10-20 trees with single-item buckets: hundreds of thousands of tree nodes, node ids far
+        // beyond one 65536-block
+        n_trees: vec![(2, vec![None]), (6, vec![Some(1), Some(2), Some(3)]), (1, vec![Some(10), Some(20)])],
+        split_after: vec![(3, vec![None]), (3, vec![Some(1), Some(2), Some(10), Some(50)]), (1, vec![Some(5000), Some(10_000)])],
         abort_pct: 0,
         build_pct: 100,
         edge_ids: false,
